@@ -89,16 +89,16 @@ class _ShimMP(object):
         return self._cpu
 
 
-def make_files(rng):
+def make_files(rng, deep=False):
     """Input files (name -> text) plus the argv options that go with them."""
-    ntax = rng.randint(4, 7)
+    ntax = rng.randint(4, 10 if deep else 7)
     labs = gen.labels(rng, ntax, rng.choice(["plain", "alpha", "under"]))
     rooting_src = rng.choice(["explicit_rooted", "explicit_unrooted", "implicit", "forced_rooted", "forced_unrooted"])
     node_ages = rooting_src in ("explicit_rooted", "forced_rooted") and rng.random() < 0.35
     weighted = rng.random() < 0.3
     with_lengths = node_ages or rng.random() < 0.7
     schema = rng.choice(["newick", "nexus"])
-    nfiles = rng.randint(2, 6)
+    nfiles = rng.randint(2, 9 if deep else 6)
     burnin = rng.choice([0, 0, 0, 1, 2])
     files = {}
     names = []
@@ -107,7 +107,7 @@ def make_files(rng):
         if fi == 0:
             nt = rng.randint(burnin + 1, burnin + 4)
         else:
-            nt = rng.randint(0, 5)
+            nt = rng.randint(0, 9 if deep else 5)
         trees = []
         for _ in range(nt):
             if node_ages:
@@ -186,7 +186,7 @@ class C06B(Machine):
     def __init__(self, name):
         self.name = name
         self.model = name.split(":")[1]
-        self.runs = {"quick": 2500, "thorough": 200000}
+        self.runs = {"quick": 2500, "thorough": 60000}
         self.rule = ("seeded input files/options/worker count and one seeded schedule per run (queue model: %s); distinct = "
                      "(file->worker assignment, arrival order of results) with >=2 workers taking part or an idle worker "
                      "result arriving, and a non-empty summary" % self.model)
@@ -201,7 +201,7 @@ class C06B(Machine):
 
     # ------------------------------------------------------------------
     def gen(self, rng, tier):
-        f = make_files(rng)
+        f = make_files(rng, deep=(tier == "thorough"))
         nfiles = len(f["names"])
         nworkers = rng.randint(2, nfiles + 2)
         use_M = rng.random() < 0.15
